@@ -38,9 +38,37 @@ func loadKnown() []KnownFinding {
 // propIncludes: a property whose sufficient condition contains other properties' mechanisms also checks their obligations
 // (C01: same token stream needs the right tree (C02), faithful re-printing (C03) and literal values (C07);
 // C06: the formatted output must parse to the same tree, i.e. the printers' parenthesisation (C03)).
-var propIncludes = map[string][]string{
-	"C01": {"C02", "C03", "C07"},
-	"C06": {"C03"},
+// C03/C05/C13: printing back, custom operators and the mode flags are stated relative to how the parser groups and where it
+// ends statements (C02); C06 additionally replays comments (C15); C08 builds on the token positions (C10) and the encoder
+// (C09); C15 on the lexer's trivia handling (C10). The table is closed under composition below.
+var propIncludes = closeIncludes(map[string][]string{
+	"C01": {"C02", "C03", "C07", "C06"},
+	"C03": {"C02"},
+	"C05": {"C02"},
+	"C13": {"C02"},
+	"C06": {"C03", "C15"},
+	"C08": {"C09", "C10"},
+	"C15": {"C10"},
+})
+
+func closeIncludes(m map[string][]string) map[string][]string {
+	out := map[string][]string{}
+	for k := range m {
+		seen := map[string]bool{k: true}
+		var walk func(p string)
+		walk = func(p string) {
+			for _, q := range m[p] {
+				if !seen[q] {
+					seen[q] = true
+					out[k] = append(out[k], q)
+					walk(q)
+				}
+			}
+		}
+		walk(k)
+		sort.Strings(out[k])
+	}
+	return out
 }
 
 func hasProp(ps []string, p string) bool {
